@@ -8,7 +8,7 @@ HOOK_COMMITS = ["a9678e6", "5525d47", "bbb9e1e"]
 CHECKS = {
  "C01": ("boundary event log + provenance ids checked against an independent MAY matching table (runtime monitor over generated workloads)",
          "Every argument observed inside every generated target/converter body (positional, struct, pointer-struct, built, generated converters) is checked for real provenance, causal order, assignability and label compatibility, over tens of thousands of generated scenarios repeated to sample map-order tie-breaks. Exploration: held on the executions observed, nothing more.",
-         "Trusts the harness's provenance table and MAY table (30 lines, written from the property text); universe of 6 concrete + 2 interface types, <= 7 converters.", "5/C01"),
+         "Trusts the harness's provenance table and MAY table (30 lines, written from the property text); universe of 6 concrete struct types + 3 interface types, plus 9 exotic types (unnamed slice/pointer/map/func/array, defined twins assignable to them, channels) that replace three of the struct types in one case in eight; <= 9 converters.", "5/C01"),
  "C02": ("derivability fix-point reference model (MAY table) vs. observed outcome and call log",
          "For every scenario with a target parameter outside the MAY least fix-point the monitor requires a non-nil error, no target execution, no fabricated argument, and the dedicated error type when every converter is MUST-satisfiable; hostile shapes (mutual cycles, unreachable prerequisites) are generated on purpose; crashes are caught by the process supervisor.",
          "Underivable is judged by the harness's own fix-point over labels; sampled scenarios only.", "5/C02"),
@@ -62,7 +62,7 @@ CHECKS = {
          "Exploration overall; the <= 3-vertex sub-space is exhaustive (reported under observed.exhaustive_le3_vertices_complete). Graphs reach the package through the verif-tag type alias.", "5/C18"),
  "C19": ("executable adjacency model checked after every operation of generated mutation histories; structural invariant hook (VerifSnapshot); live-graph mirror/copy checks",
          "Histories of up to 60 colliding operations (Add, AddOverwrite, AddEdge(Weighted), RemoveEdge, Remove, Copy, Reverse, Reverse().Reverse(), starting from the zero-value graph) run against a plain map model per graph; after every operation every live handle is compared (vertex set, successors, predecessors, internal transpose consistency, weights, lookups) and at the end searches must use the last weights.",
-         "Absent-vertex arguments are outside the property and not generated; object identity of re-added vertices not checked.", "5/C19"),
+         "Edge operations naming an absent vertex and removals of absent vertices are generated and expected to do nothing; object identity of re-added vertices not checked.", "5/C19"),
  "C20": ("transitive-closure reference model for DFS / KahnSort / StronglyConnected / TopoShortestPath on generated graphs; live pruning-DFS hook; exhaustive small-graph sub-space in the thorough tier",
          "DFS with fixed descend/decline decisions, topological sorting (incl. the required panic on cycles and self-loops), component partition and DAG shortest paths are compared with the closure / all-pairs reference on random graphs and, in the thorough tier, on every digraph with <= 3 vertices; the resolver's own pruning traversal is checked on live graphs.",
          "Vertices whose callback declines may be reported repeatedly (never marked visited); sets are compared for those.", "5/C20"),
